@@ -366,13 +366,20 @@ type vctx struct {
 	stats  map[string]int64
 }
 
+// bad records a disagreement; only the first one per signature is kept (so a noisy class cannot crowd out
+// another one) and at most 24 signatures per view.
 func (v *vctx) bad(api, kind, format string, a ...any) {
-	if len(v.out) >= 12 {
-		return
-	}
 	sig := vlib.JoinSig(v.fam, api, kind)
 	if v.fam != "readback" || api == "TimeRange" || api == "Stats" || api == "OverlapsTimeRange" {
 		sig += v.suffix // readback: the time class only matters for the time lookups
+	}
+	for _, f := range v.out {
+		if f.sig == sig {
+			return
+		}
+	}
+	if len(v.out) >= 24 {
+		return
 	}
 	v.out = append(v.out, fail{sig: sig, msg: api + ": " + fmt.Sprintf(format, a...)})
 }
@@ -1312,6 +1319,8 @@ type Case struct {
 	Fam  string       `json:"family"` // readback | tomb | maxkey
 	File *FileSpec    `json:"file,omitempty"`
 	Hist *TombHistory `json:"history,omitempty"`
+	A    []TombStep   `json:"acked,omitempty"`     // recovery family: steps completed
+	B    []TombStep   `json:"in_flight,omitempty"` // recovery family: the step that may or may not have happened
 }
 
 func subsetOf(mask int) []int {
@@ -1335,15 +1344,21 @@ var (
 
 // readbackFamilies calls visit for every file of the tier, simplest families first. Every spec is produced
 // once per family; a few specs occur in two families (they are deduplicated for the non-trivial count).
-func readbackFamilies(thorough bool, visit func(fam string, fs FileSpec) bool) {
+//
+// phase 1 (both tiers): focus, shifted, subsets; phase 2 (thorough only, enumerated after the tombstone
+// histories): subsets over 4 layouts, pairs.
+func readbackFamilies(thorough bool, phase int, visit func(fam string, fs FileSpec) bool) {
 	L := tsmkit.Layouts(5, 3) // 111 layouts: every non-empty subset of {1..5} in 1..3 contiguous blocks
 	typ := func(k, rot int) byte { return tsmkit.AllTypes[(k+rot)%len(tsmkit.AllTypes)] }
 
-	// focus: one key runs through every layout and type, alone and among all other keys. quick: the writer
-	// variant rotates with the case; thorough: all four writers.
+	// focus: one key runs through every layout and type, alone and among all other keys; the writer variant
+	// rotates with the case (thorough: two passes with different rotations).
 	nw := 1
 	if thorough {
-		nw = len(allWriters)
+		nw = 2
+	}
+	if phase != 1 {
+		nw = 0
 	}
 	for wi := 0; wi < nw; wi++ {
 		for k := 0; k < nPool; k++ {
@@ -1353,7 +1368,7 @@ func readbackFamilies(thorough bool, visit func(fam string, fs FileSpec) bool) {
 						if !thorough && ctx == 1 && ti != (li+k)%len(tsmkit.AllTypes) {
 							continue // quick: among the other keys only one (rotating) type per layout
 						}
-						fs := FileSpec{Writer: allWriters[(wi+k+li+ti+ctx)%len(allWriters)]}
+						fs := FileSpec{Writer: allWriters[(2*wi+k+li+ti+ctx)%len(allWriters)]}
 						for o := 0; o < nPool; o++ {
 							switch {
 							case o == k:
@@ -1372,7 +1387,11 @@ func readbackFamilies(thorough bool, visit func(fam string, fs FileSpec) bool) {
 	}
 
 	// shifted timestamps: negative, mixed-sign and realistic nanosecond times
-	for _, shift := range []int64{-10, -3, 1_000_000_000_000_000_000} {
+	shifts := []int64{-10, -3, 1_000_000_000_000_000_000}
+	if phase != 1 {
+		shifts = nil
+	}
+	for _, shift := range shifts {
 		for k := 0; k < 3; k++ {
 			for _, l := range L {
 				fs := FileSpec{Writer: wMem, Shift: shift, Keys: []KeySpec{{k, typ(k, 1), l}}}
@@ -1394,19 +1413,21 @@ func readbackFamilies(thorough bool, visit func(fam string, fs FileSpec) bool) {
 	}
 
 	// subsets: every non-empty key subset, every assignment of a reduced layout set, type rotations, writers.
-	// quick: 2 layouts x 2 rotations x 4 writers; thorough: 3 layouts x 5 rotations x 4 writers, then
-	// 4 layouts x 1 rotation x 2 writers.
+	// phase 1: 2 layouts x 2 rotations x 4 writers (quick) / 3 layouts x 2 rotations x 4 writers (thorough);
+	// phase 2 (thorough): 4 other layouts x 1 rotation x 1 writer.
 	type subsetRun struct {
 		R       []tsmkit.Layout
 		rots    int
 		writers []string
 	}
-	runs := []subsetRun{{[]tsmkit.Layout{lSingle, lTwo}, 2, allWriters}}
-	if thorough {
-		runs = []subsetRun{
-			{[]tsmkit.Layout{lSingle, lTwo, lThree}, 5, allWriters},
-			{[]tsmkit.Layout{lFull, lTwo, lThree, lGaps}, 1, []string{wMem, wDiskBlock}},
-		}
+	var runs []subsetRun
+	switch {
+	case phase == 1 && !thorough:
+		runs = []subsetRun{{[]tsmkit.Layout{lSingle, lTwo}, 2, allWriters}}
+	case phase == 1:
+		runs = []subsetRun{{[]tsmkit.Layout{lSingle, lTwo, lThree}, 2, allWriters}}
+	case thorough:
+		runs = []subsetRun{{[]tsmkit.Layout{lFull, lTwo, lThree, lGaps}, 1, []string{wDiskBlock}}}
 	}
 	for _, sr := range runs {
 		R := sr.R
@@ -1434,9 +1455,9 @@ func readbackFamilies(thorough bool, visit func(fam string, fs FileSpec) bool) {
 		}
 	}
 
-	// pairs (thorough): two keys, every pair of layouts
-	if thorough {
-		for _, pr := range [][2]int{{0, 1}, {2, 3}, {4, 5}} {
+	// pairs (thorough): the prefix pair of keys, every pair of layouts
+	if thorough && phase == 2 {
+		for _, pr := range [][2]int{{0, 1}} {
 			for _, la := range L {
 				for _, lb := range L {
 					fs := FileSpec{Writer: wMem, Keys: []KeySpec{{pr[0], typ(pr[0], 3), la}, {pr[1], typ(pr[1], 3), lb}}}
@@ -1503,7 +1524,7 @@ func reducedRanges(thorough bool) []trange {
 	if !thorough {
 		return []trange{{1, 2}, {3, 3}, {2, 4}, {4, 5}, {1, 5}, fullRange} // incl. pairs sharing only min / only max
 	}
-	return []trange{{1, 1}, {1, 2}, {3, 3}, {2, 4}, {4, 5}, {5, 5}, {1, 5}, fullRange}
+	return []trange{{1, 1}, {1, 2}, {3, 3}, {2, 4}, {4, 5}, {1, 5}, fullRange}
 }
 
 // argSubsets lists the non-empty subsets of args; maxSize > 0 keeps only those of at most maxSize keys and
@@ -1549,14 +1570,22 @@ func tombHistories(base tombBase, thorough bool, visit func(fam string, steps []
 	}
 	// two operations over the reduced ranges: one batch, two batches, reopen in between, first rolled back,
 	// second rolled back (thorough), first as a whole-key Delete
-	subs2 := argSubsets(base.args, 2) // thorough: singletons, pairs, all
-	if !thorough { // quick: singletons of the file's keys, all
-		subs2 = nil
+	var subs2 [][]int
+	if thorough { // singletons of all argument keys, pairs of the file's keys, all
+		for _, k := range base.args {
+			subs2 = append(subs2, []int{k})
+		}
+		for i, a := range base.file.Keys {
+			for _, b := range base.file.Keys[i+1:] {
+				subs2 = append(subs2, []int{a.K, b.K})
+			}
+		}
+	} else { // quick: singletons of the file's keys, all
 		for _, k := range base.file.Keys {
 			subs2 = append(subs2, []int{k.K})
 		}
-		subs2 = append(subs2, base.args)
 	}
+	subs2 = append(subs2, base.args)
 	var ops []TombOp
 	for _, ks := range subs2 {
 		for _, rg := range reducedRanges(thorough) {
@@ -1600,6 +1629,61 @@ func tombHistories(base tombBase, thorough bool, visit func(fam string, steps []
 						return
 					}
 				}
+			}
+		}
+	}
+}
+
+// evalRecovery exercises the history writer / recovery checker pair without a crash: after the history "a"
+// the checker must answer old, after "a then b" it must answer new (old=new when b hides nothing more).
+func evalRecovery(dir string, fs FileSpec, a, b []TombStep) (fails []fail, outcome string) {
+	var got [2]string
+	for i, steps := range [][]TombStep{a, append(append([]TombStep(nil), a...), b...)} {
+		sub := filepath.Join(dir, fmt.Sprintf("rec%d", i))
+		if err := os.Mkdir(sub, 0o777); err != nil {
+			return []fail{{"recovery/harness", scrub(err.Error(), dir)}}, "recovery:harness-error"
+		}
+		var werr error
+		p, d := vlib.Guard(func() { werr = WriteTombHistory(sub, fs, steps, nil) })
+		if p {
+			fails = append(fails, fail{vlib.JoinSig("recovery", "panic", frameOf(d)), d})
+		} else if werr != nil {
+			fails = append(fails, fail{"recovery/history-writer/error", scrub(werr.Error(), dir)})
+		} else {
+			verdict, reason := CheckRecovery(sub, fs, a, b)
+			got[i] = verdict
+			want := []string{"old", "new"}[i]
+			if verdict != want && verdict != "old=new" {
+				if verdict == "" {
+					verdict = "neither"
+				}
+				fails = append(fails, fail{fmt.Sprintf("recovery/CheckRecovery/want-%s-got-%s", want, verdict),
+					fmt.Sprintf("after %s the checker says %q: %s", []string{"the acknowledged steps", "all steps"}[i], verdict, reason)})
+			}
+		}
+		os.RemoveAll(sub)
+	}
+	return fails, fmt.Sprintf("recovery:%s/%s", got[0], got[1])
+}
+
+// recoveryCases enumerates (a, b) for the recovery family: a = nothing (create path) or one committed op
+// (append path), b = one committed op, over the file's keys and the reduced ranges.
+func recoveryCases(base tombBase, visit func(a, b []TombStep) bool) {
+	var ops []TombOp
+	for _, k := range base.file.Keys {
+		for _, rg := range reducedRanges(false) {
+			ops = append(ops, TombOp{[]int{k.K}, rg.min, rg.max})
+		}
+	}
+	for _, o2 := range ops {
+		if !visit(nil, []TombStep{{Kind: "commit", Ops: []TombOp{o2}}}) {
+			return
+		}
+	}
+	for _, o1 := range ops {
+		for _, o2 := range ops {
+			if !visit([]TombStep{{Kind: "commit", Ops: []TombOp{o1}}}, []TombStep{{Kind: "commit", Ops: []TombOp{o2}}}) {
+				return
 			}
 		}
 	}
@@ -1687,7 +1771,7 @@ func run(c *vlib.Ctx) {
 	// --- readback
 	capped := false
 	only := os.Getenv("C08_ONLY") // development aid: "readback" | "tomb"
-	readbackFamilies(c.Thorough(), func(fam string, fs FileSpec) bool {
+	visitFile := func(fam string, fs FileSpec) bool {
 		if only == "tomb" {
 			return false
 		}
@@ -1713,11 +1797,13 @@ func run(c *vlib.Ctx) {
 		c.Outcome(fmt.Sprintf("readback:keys=%d,%s:%s", len(fs.Keys), fs.Writer, failedAPIs(fails)))
 		if len(fails) > 0 {
 			report(c, fails, Case{Fam: "readback", File: &fs}, "file "+specStr(fs))
-		} else if c.WantSample() && len(fs.Keys) >= 3 {
-			c.Sample(map[string]any{"family": fam, "file": fs, "result": "every lookup agrees with the written content"})
+		}
+		if c.WantSample() && len(fs.Keys) >= 3 && len(fs.Keys) <= 4 {
+			c.Sample(map[string]any{"family": fam, "file": fs, "lookups": failedAPIs(fails)})
 		}
 		return true
-	})
+	}
+	readbackFamilies(c.Thorough(), 1, visitFile)
 	if capped {
 		return
 	}
@@ -1759,7 +1845,8 @@ func run(c *vlib.Ctx) {
 			c.Outcome(outcome)
 			if len(fails) > 0 {
 				report(c, fails, Case{Fam: "tomb", Hist: &h}, "history "+specStr(h))
-			} else if c.WantSample() && fam == "tomb2" && strings.Contains(outcome, "partial") {
+			}
+			if c.WantSample() && fam == "tomb2" && strings.Contains(outcome, "partial") {
 				c.Sample(map[string]any{"family": fam, "history": h, "result": outcome})
 			}
 			return true
@@ -1768,6 +1855,41 @@ func run(c *vlib.Ctx) {
 		if stop {
 			return
 		}
+	}
+
+	// --- history writer / recovery checker pair (the crash engine's two halves), without a crash
+	if only != "readback" {
+		base := tombBases(false)[2] // two keys
+		stop := false
+		recoveryCases(base, func(a, b []TombStep) bool {
+			idx++
+			if !c.Mine(idx) {
+				return true
+			}
+			if c.Expired() {
+				c.Cap("budget expired inside the recovery family")
+				stop = true
+				return false
+			}
+			fails, outcome := evalRecovery(dir, base.file, a, b)
+			c.Eval(1)
+			c.Extra("histories_recovery", 1)
+			c.Nontrivial("rec|" + specStr(a) + specStr(b))
+			if len(fails) > 0 {
+				outcome += ":" + failedAPIs(fails)
+				report(c, fails, Case{Fam: "recovery", File: &base.file, A: a, B: b}, "recovery "+specStr(a)+" then "+specStr(b))
+			}
+			c.Outcome(outcome)
+			return true
+		})
+		if stop {
+			return
+		}
+	}
+
+	// --- readback, second phase (thorough)
+	if c.Thorough() {
+		readbackFamilies(true, 2, visitFile)
 	}
 }
 
@@ -1796,6 +1918,11 @@ func replay(c *vlib.Ctx, raw json.RawMessage) (bool, string) {
 			return false, "cannot write base file: " + scrub(err.Error(), dir)
 		}
 		fails, extra = evalTomb(dir, buildModel(cs.Hist.File), *cs.Hist, nil)
+	case "recovery":
+		if cs.File == nil {
+			return false, "no file in case"
+		}
+		fails, extra = evalRecovery(dir, *cs.File, cs.A, cs.B)
 	default:
 		return false, "unknown family " + cs.Fam
 	}
@@ -1810,7 +1937,7 @@ func replay(c *vlib.Ctx, raw json.RawMessage) (bool, string) {
 func TestCheck(t *testing.T) {
 	vlib.Main(t, &vlib.Check{
 		ID: "C08", Level: "exploration",
-		Rule: "READBACK, real TSM files over a 6-key pool (prefix pair, escaped comma, 65535-byte key, 0xFF byte, 1-byte key), logical timestamps {1..5}: (a) focus: 1 key x all 111 layouts (non-empty subset of {1..5} in 1..3 blocks) x {alone x 5 block types, among the 5 other keys x 1 rotating type (quick) / 5 types (thorough)}, writer variant rotating (quick) / all 4 (thorough); (b) shifted: time shifts {-10,-3,1e18} x (3 keys x 111 layouts + 3 key pairs x 16 layout pairs); (c) subsets: every non-empty key subset x every assignment of 2 fixed layouts x 2 type rotations x 4 writers (quick) / 3 layouts x 5 rotations x 4 writers + 4 layouts x 2 writers (thorough); writers = in-memory|disk-buffered index x Write|WriteBlock; (d, thorough) 3 key pairs x 111x111 layouts; plus one 65536-byte key. Per file: byte-level parse vs model, then Contains/Seek/KeyAt/Key/KeyCount/Type/Entries/ReadEntries/Read/ReadAt/ReadAll/ContainsValue/BlockIterator/KeyRange/TimeRange/Stats/OverlapsTimeRange/OverlapsKeyRange over 20 probe keys (14 absent neighbours, all ordered pairs for key ranges) and times 0..6 (all sub-ranges + infinite ones). TOMB, 4 (quick) / 8 (thorough) base files of 1-3 keys: tomb1 = every non-empty subset of 3-4 argument keys (incl. absent ones) x {DeleteRange x 25 ranges, BatchDelete+Commit and BatchDelete+Rollback x 6 (quick) / 25 (thorough) ranges} and Delete(keys); tomb2 = every ordered pair of ops over key subsets {singletons of file keys, whole argument set} x 6 ranges (quick) / {size<=2, whole set} x 8 ranges (thorough) x {one batch, two batches, reopen between, first rolled back, second rolled back (thorough only), first as Delete}; tomb3 = every triple of 6 (quick) / 8 (thorough) ranges on one key x {one batch, three batches}; every history is checked on the live reader and after a reopen. non-trivial = file with >1 key or >1 block, every tombstone history (deduplicated by spec)",
+		Rule: "READBACK, real TSM files over a 6-key pool (prefix pair, escaped comma, 65535-byte key, 0xFF byte, 1-byte key), logical timestamps {1..5}: (a) focus: 1 key x all 111 layouts (non-empty subset of {1..5} in 1..3 blocks) x {alone x 5 block types, among the 5 other keys x 1 rotating type (quick) / 5 types (thorough)}, writer variant rotating, 1 (quick) / 2 (thorough) passes; (b) shifted: time shifts {-10,-3,1e18} x (3 keys x 111 layouts + 3 key pairs x 16 layout pairs); (c) subsets: every non-empty key subset x every assignment of 2 (quick) / 3 (thorough) fixed layouts x 2 type rotations x 4 writers, thorough also 4 other layouts x 1 writer; writers = in-memory|disk-buffered index x Write|WriteBlock; (d, thorough) the prefix key pair x 111x111 layouts; plus one 65536-byte key. Per file: byte-level parse vs model, then Contains/Seek/KeyAt/Key/KeyCount/Type/Entries/ReadEntries/Read/ReadAt/ReadAll/ContainsValue/BlockIterator/KeyRange/TimeRange/Stats/OverlapsTimeRange/OverlapsKeyRange over 20 probe keys (14 absent neighbours, all ordered pairs for key ranges) and times 0..6 (all sub-ranges + infinite ones). TOMB, 4 (quick) / 8 (thorough) base files of 1-3 keys: tomb1 = every non-empty subset of 3-4 argument keys (incl. absent ones) x {DeleteRange x 25 ranges, BatchDelete+Commit and BatchDelete+Rollback x 6 (quick) / 25 (thorough) ranges} and Delete(keys); tomb2 = every ordered pair of ops over key subsets {singletons of file keys, whole argument set} x 6 ranges (quick) / {singletons of argument keys, pairs of file keys, whole set} x 7 ranges (thorough) x {one batch, two batches, reopen between, first rolled back, second rolled back (thorough only), first as Delete}; tomb3 = every triple of 6 (quick) / 7 (thorough) ranges on one key x {one batch, three batches}; every history is checked on the live reader and after a reopen. RECOVERY (no crash; the two halves the crash engine reuses): 1 two-key file x {no prior tombstone, 1 committed op} x 1 op over 2 keys x 6 ranges: WriteTombHistory then CheckRecovery must say old after the acknowledged steps and new after all. Order: focus, shifted, subsets, tomb, then (thorough) 4-layout subsets and pairs. non-trivial = file with >1 key or >1 block, every tombstone history (deduplicated by spec)",
 		Assumptions: []string{
 			"block payload codecs (tsm1.Values.Encode / DecodeBlock) are used by the byte-level parse to decode blocks; they are the subject of other properties",
 			"with tombstones the statement fixes only what is hidden: Contains/KeyCount for a key whose points are all hidden by several partial ranges, and Entries for fully hidden blocks, are accepted either way; KeyRange/TimeRange/Stats are checked only on files without tombstones",
@@ -1820,6 +1947,6 @@ func TestCheck(t *testing.T) {
 		// one case at a time per worker: no use for more Ps; the writers allocate 3-4 MiB of buffers per file,
 		// so a lazier GC helps
 		WorkerEnv: []string{"GOMAXPROCS=1", "GOGC=400"},
-		Run: run, Replay: replay,
+		Run:       run, Replay: replay,
 	})
 }
